@@ -572,7 +572,9 @@ SCENARIOS = [
     ("PR", "tag_delete:v1+gc"), ("PR", "man_delete:M1"),
     ("PR2", "man_delete:A1"), ("PR2", "man_delete:A2+gc"), ("PR2", "put_refd:A1"),
     # two tags plus leftovers of an earlier interrupted writer (stale temp files, an orphan blob)
-    ("PT", "put_tag:v3:M3+gc"), ("PT", "tag_delete:v2+gc"), ("PT", "copy:v3:m3+gc"),
+    ("PT", "put_tag:v3:M3+gc"), ("PT", "tag_delete:v2+gc"), ("PT", "copy:v3:m3+gc"), ("PT", "blob_delete:L4"),
+    # copy inside one layout (retag): new tag, and an existing tag moved to another image (+GC of the old one)
+    ("P2", "retag:v3:v1"), ("P2", "retag:v2:v1+gc"),
 ]
 STATES = ["E", "E0", "P1", "P2", "PX", "PR", "PR2", "PT"]
 
@@ -586,8 +588,10 @@ def op_info(ab, op, pre):
     a = op[:-3].split(":") if op.endswith("+gc") else op.split(":")
     kind = a[0]
     h = {"kind": kind, "optag": "", "opobj": "", "subj": "", "fbtag": "", "wantrefs": [], "norefs": [], "tgt": []}
-    if kind == "blob_put" or kind in ("put_digest", "put_child"):
+    if kind in ("blob_put", "blob_delete", "put_digest", "put_child"):
         h["opobj"] = a[1]
+    elif kind == "retag":
+        h.update(optag=a[1], opobj=pre.get(a[2], ""), tgt=[a[1]])
     elif kind in ("put_tag", "put_index"):
         h.update(optag=a[1], opobj=a[2], tgt=[a[1]])
     elif kind == "put_ref":
@@ -665,6 +669,10 @@ def run_scenario(env, sid, start, op, crashed=None):
     fs.root = d
     r.pre_fs = crashed[0].pre_fs if crashed is not None else fs.clone()   # O3 refers to the tags before the FIRST attempt
     r.second = crashed is not None
+    r.origin = None
+    if crashed is not None:
+        e0 = crashed[0].events[crashed[1] - 1]
+        r.origin = "%s:%s[marker=%s,index=%s]" % (e0["call"], e0["cls"], e0["facts"]["marker"], e0["facts"]["index"])
     st = os.path.join(base, "strace.txt")
     p = _sh(strace_argv(st) + [drv, "-mode", "op", "-dir", d, "-src", src, "-op", op, "-res", os.path.join(base, "res.json")],
             cwd=base)
@@ -677,7 +685,8 @@ def run_scenario(env, sid, start, op, crashed=None):
     calls, _ = parse_strace(st)
     r.calls = calls
     rp = Replayer(fs, base)
-    info = op_info(ab, op, {})
+    pre0 = ab.abstract(r.pre_fs)
+    info = r.info = op_info(ab, op, dict(zip(pre0["tag_t"], pre0["tag_d"])))
     r.snaps.append(fs.clone())
     counts = {}
     for c in calls:
@@ -791,7 +800,7 @@ def build_trace(env, r, probes, dirs, selected):
     end.update(facts_of(ab, fin, info))
     end.update(ab.fresh_facts(pe["fresh"], info["subj"]))
     evs.append(end)
-    return {"id": r.sid, "header": hdr, "events": evs, "scenario": {"start": r.start, "op": r.op}}
+    return {"id": r.sid, "header": hdr, "events": evs, "scenario": {"start": r.start, "op": r.op}, "origin": r.origin}
 
 
 # ----------------------------------------------------------------------------------------------
@@ -842,12 +851,14 @@ def signature(t, ei, obl):
     """class of a violation: operation kind / obligation @ phase : crash point class [marker state there]"""
     ev = t["events"][ei]
     kind = t["header"]["kind"]
+    # a run that is itself the retry of a crash state carries the class of that first crash point
+    sfx = "<-2nd:" + t["origin"] if t.get("origin") else ""
     if ev["ev"] == "end":
-        return "%s/%s@end" % (kind, obl)
+        return "%s/%s@end%s" % (kind, obl, sfx)
     k = ev["k"]
     se = next(e for e in t["events"] if e["ev"] == "sys" and e["k"] == k)
     phase = {"sys": "crash", "fresh": "fresh", "retry": "retry"}[ev["ev"]]
-    return "%s/%s@%s:%s:%s[marker=%s,index=%s]" % (kind, obl, phase, se["call"], se["cls"], se["marker"], se["index"])
+    return "%s/%s@%s:%s:%s[marker=%s,index=%s]%s" % (kind, obl, phase, se["call"], se["cls"], se["marker"], se["index"], sfx)
 
 
 # ----------------------------------------------------------------------------------------------
@@ -894,14 +905,13 @@ def _known_loader(ctx):
 
     def load():
         k = base()
-        have = {x.get("id") for x in k.get("findings", [])}
         try:
             with open(os.path.join(vlib.VERIF, "known.d", "C07.json")) as f:
-                for x in json.load(f):
-                    if x.get("id") not in have:
-                        k.setdefault("findings", []).append(x)
+                mine = json.load(f)
         except (OSError, ValueError):
-            pass
+            return k
+        # known.d/C07.json is the source of this property's entries (status included); the assembled file may lag
+        k["findings"] = [x for x in k.get("findings", []) if x.get("property") != "C07"] + mine
         return k
     return load
 
@@ -1030,8 +1040,8 @@ def binding_demo(ctx, traces, dtraces, matched, mode):
 
 
 CONCURRENT = ("copy", "copy_ref")
-S4_SIG = re.compile(r"[a-z_]+/.*:openat_trunc:marker\[marker=empty,index=ok\]")
-REFCOPY_SIG = re.compile(r"copy_ref/O6-referrers@retry:.*")
+S4_SIG = re.compile(r"[a-z_]+/[^<]*:openat_trunc:marker\[marker=empty,index=ok\]")
+REFCOPY_SIG = re.compile(r"copy_ref/O6-referrers@retry:[^<]*")
 
 
 def run(ctx):
@@ -1088,16 +1098,22 @@ def run(ctx):
             mc.append(ctx.tlc("LayoutFSMC", "C07_mc_fixed.cfg", timeout=900,
                               label="60 scenarios, marker written only when missing/unreadable, crash anywhere + retry"))
             s4 = None
-        rc_ = ctx.tlc("LayoutFSMC", "C07_mc_refcopy%s%s.cfg" % ("" if thorough else "q", "" if mode == "rewrite" else "_fixed"),
+        rc_ = ctx.tlc("LayoutFSMC", "C07_mc_refcopyq%s.cfg" % ("" if mode == "rewrite" else "_fixed"),
                       allow_violation=True, timeout=900,
                       label="image copy with referrers (counterexample expected: interrupted referrer copy not repaired)")
         mc.append(rc_)
         if thorough:
             mc.append(ctx.tlc("LayoutFSMC", "C07_mc_t2.cfg" if mode == "rewrite" else "C07_mc_t2_fixed.cfg", timeout=2400,
                               label="as quick, the retry may be killed as well (two crashes)"))
-            mc.append(ctx.tlc("LayoutFSMC", "C07_sim_ix.cfg" if mode == "rewrite" else "C07_sim_ix_fixed.cfg", timeout=1200,
+            sim = ctx.tlc("LayoutFSMC", "C07_sim_ix.cfg" if mode == "rewrite" else "C07_sim_ix_fixed.cfg", timeout=1200,
                               workers=8, simulate="num=%d" % 200, depth=400, extra=["-seed", str(ctx.seed)],
-                              label="copy of a two-image index, one goroutine per blob: 1600 random behaviours (BFS does not finish)"))
+                              label="copy of a two-image index, one goroutine per blob: 1600 random behaviours (BFS does not finish)")
+            m = re.search(r"The number of states generated: (\d+)", sim["output"])
+            if not m:
+                raise vlib.ToolError("simulation run printed no state count:\n" + sim["output"][-2000:])
+            sim["generated"] = int(m.group(1))          # simulation mode has no distinct-state count
+            ctx.tlc_runs[-1]["generated"] = sim["generated"]
+            mc.append(sim)
             if mode == "rewrite":
                 mc.append(ctx.tlc("LayoutFSMC", "C07_mc_fixed.cfg", timeout=900,
                                   label="design of the proposed repair (findings/C07-1.patch): crash anywhere + retry"))
@@ -1190,8 +1206,10 @@ def run(ctx):
 
     # 4. binding of (D): the recorded call sequences are behaviours of LayoutFS
     dts = [dtrace_of(env["ab"], r) for r in first_level]
-    if not thorough:
-        dts = [d for d in dts if not (d["header"]["kind"] in CONCURRENT and d["header"]["o"] == "IX")]
+    # the two copies of a two-image index (9 goroutines) cost ~40 s each to match: thorough only, one recording each
+    nbase = len(SCENARIOS)
+    dts = [d for i, d in enumerate(dts)
+           if not (d["header"]["kind"] in CONCURRENT and d["header"]["o"] == "IX") or (thorough and i < nbase)]
     done, drift = validate_dtraces(ctx, dts, mode, "dtrace")
     lap("TLC validation against (D)")
     cov["design_traces_matched"] = len(done)
@@ -1228,7 +1246,7 @@ def run(ctx):
 # ----------------------------------------------------------------------------------------------
 
 def dtrace_of(ab, r):
-    info = op_info(ab, r.op, {})
+    info = r.info
     hdr = {"start": r.start, "kind": info["kind"], "t": info["optag"], "o": info["opobj"],
            "gc": 1 if r.op.endswith("+gc") else 0}
     evs = []
